@@ -210,6 +210,10 @@ Proj(r, ik) == IF ik = "upd" /\ OnlyCare /\ r # Absent THEN [w |-> r.w, u |-> 0]
 \* undo one image on table d: "ok" with the new table, "skip" (already before), or "dirty"
 UndoOne(d, im) ==
   LET cur == d[im.k] IN
+  IF Proj(im.before, im.kind) = Proj(im.after, im.kind)
+  THEN \* the statement did not change this row: nothing to restore, nothing to protect
+       [res |-> "skip", d |-> d]
+  ELSE
   IF Proj(cur, im.kind) = Proj(im.after, im.kind)
   THEN [res |-> "ok",
         d |-> [d EXCEPT ![im.k] = IF im.kind = "upd" /\ OnlyCare /\ cur # Absent
